@@ -873,6 +873,11 @@ def _map_index_to_line_and_column(text):
         line_numbers.append(current_line)
         column_numbers.append(current_column)
 
+    # One more entry for the end-of-input offset, where a match that consumes
+    # nothing may start.
+    line_numbers.append(current_line)
+    column_numbers.append(current_column + 1)
+
     return line_numbers, column_numbers
 '''
 
